@@ -18,6 +18,32 @@ namespace CC
 /-- `size_t` arithmetic is modulo this -/
 def sizeMod : Nat := 2 ^ 64
 
+/-- the overflow guard of the two `*_pool_calloc`: `size != 0 && count > ((size_t) -1) / size` -/
+def mulOverflows (count sz : Nat) : Bool := sz != 0 && decide (count > (sizeMod - 1) / sz)
+
+theorem mulOverflows_iff (count sz : Nat) : mulOverflows count sz = true ↔ sizeMod ≤ count * sz := by
+  unfold mulOverflows
+  simp only [Bool.and_eq_true, bne_iff_ne, ne_eq, decide_eq_true_eq]
+  constructor
+  · rintro ⟨h0, h1⟩
+    have hpos : 0 < sz := Nat.pos_of_ne_zero h0
+    have := Nat.lt_mul_div_succ (sizeMod - 1) hpos
+    have h2 : sz * ((sizeMod - 1) / sz + 1) ≤ sz * count := Nat.mul_le_mul_left _ h1
+    rw [Nat.mul_comm count sz]
+    have : 0 < sizeMod := by decide
+    omega
+  · intro h
+    have h0 : sz ≠ 0 := by
+      intro e; subst e; simp [sizeMod] at h
+    refine ⟨h0, ?_⟩
+    apply Decidable.byContradiction
+    intro hle
+    have hle' : count ≤ (sizeMod - 1) / sz := by omega
+    have := Nat.mul_le_mul_right sz hle'
+    have h3 := Nat.div_mul_le_self (sizeMod - 1) sz
+    have : 0 < sizeMod := by decide
+    omega
+
 structure SPoolCore where
   size  : Nat
   free  : Nat          -- free_ptr - low_ptr
@@ -40,8 +66,10 @@ def malloc (c : SPoolCore) (n : Nat) : Option Nat × SPoolCore :=
   let ptr := c.free
   (some ptr, { c with high := ptr, free := ptr + n })
 
-/-- `cc_static_pool_calloc`: the request is `count * size` in `size_t` arithmetic -/
+/-- `cc_static_pool_calloc`: NULL when `count * size` overflows `size_t`, else the request is the
+product -/
 def calloc (c : SPoolCore) (count sz : Nat) (m : Mem) : Option Nat × SPoolCore × Mem :=
+  if mulOverflows count sz then (none, c, m) else
   let n := (count * sz) % sizeMod
   let r := c.malloc n
   match r.1 with
